@@ -509,3 +509,29 @@ B("C02", NW, "            offset_within_cell = cell.cumsum_ncomp[-1]\n          
 for _p, _r in (("C10", "R-C10-order"), ("C05", "R-C05-order")):
     B(_p, BASE, "                param_state += added_param_state", "                param_state = added_param_state + param_state", _r)
 P("C10", BASE, "                param_state += added_param_state", "                param_state = param_state + added_param_state")
+
+# ---- rules added after round 6
+# saturation is part of the value everywhere but inside save_exp; save_exp itself is exp with an upper clip at 20
+B("C16", CU, "    loc_within_bin = (loc - left_loc) / (right_loc - left_loc)", "    loc_within_bin = (loc - left_loc) / np.maximum(right_loc - left_loc, 1e-6)", "R-C16-forms")
+for _p, _r in (("C03", "R-C03-saturation"), ("C04", "R-C04-saturation")):
+    B(_p, SG, "    x = jnp.clip(x, max=max_value)", "    x = jnp.clip(x, min=-max_value, max=max_value)", _r)
+    B(_p, SG, "def save_exp(x, max_value: float = 20.0):", "def save_exp(x, max_value: float = 5.0):", _r)
+    P(_p, SG, "    x = jnp.clip(x, max=max_value)\n    return jnp.exp(x)", "    return jnp.exp(jnp.minimum(x, max_value))")
+# a branch is never its own parent
+B("C16", CU, "        if len(ind) > 0 and ind != i:", "        if len(ind) > 0 and ind[0] <= i:", "R-C16-split")
+B("C16", CU, "        if len(ind) > 0 and ind != i:", "        if len(ind) > 0:", "R-C16-split")
+P("C16", CU, "        if len(ind) > 0 and ind != i:", "        if len(ind) > 0 and not (ind == i):")
+P("C16", CU, "        if len(ind) > 0 and ind != i:", "        if len(ind) > 0 and i != ind[0]:")
+# what a view lists: the global columns of its own rows
+for _p, _r in (("C11", "R-C11-inview"), ("C20", "R-C20-views")):
+    B(_p, BASE, '        return self.nodes["global_cell_index"].unique()', '        first_cell = self.nodes["global_cell_index"].iloc[0]\n        return first_cell + self.nodes["local_cell_index"].unique()', _r)
+    B(_p, BASE, '        return self.nodes["global_comp_index"].unique()', '        return self.nodes["global_branch_index"].unique()', _r)
+    P(_p, BASE, '        return self.nodes["global_cell_index"].unique()', '        cells = self.nodes["global_cell_index"]\n        return cells.unique()')
+    # a slice index keeps its step
+    B(_p, BASE, "        idx = np.arange(len(self.base.nodes))[idx] if isinstance(idx, slice) else idx", "        if isinstance(idx, slice):\n            start, stop, _ = idx.indices(len(self.base.nodes))\n            idx = np.arange(start, stop)", _r if _p == "C20" else "R-C11-index")
+    P(_p, BASE, "        idx = np.arange(len(self.base.nodes))[idx] if isinstance(idx, slice) else idx", "        if isinstance(idx, slice):\n            idx = np.arange(*idx.indices(len(self.base.nodes)))")
+# padded trainable indices at simulation time (shared with C19)
+B("C19", BASE, "                inds = jnp.where(\n                    jnp.asarray(parameter[\"indices\"]) < 0, len(states[key]), inds\n                )\n", "", "R-C19-sentinel")
+# copy protocol: rebuild-by-constructor reducers, process-wide reducer registrations
+B("C18", BASE, "    def __exit__(self, exc_type, exc_value, exc_traceback):\n        pass\n", "    def __exit__(self, exc_type, exc_value, exc_traceback):\n        pass\n\n    def __reduce__(self):\n        return (View, (self.base, self._nodes_in_view, self._edges_in_view))\n", "R-C18-protocol")
+B("C18", JU, 'Func = TypeVar("Func", bound=Callable)\n', 'Func = TypeVar("Func", bound=Callable)\nimport copyreg\nimport numpy as np\ncopyreg.pickle(type(jnp.zeros(())), lambda x: (np.asarray, (np.asarray(x),)))\n', "R-C18-protocol")
